@@ -60,7 +60,7 @@ def describe(run, l, clause, S):
         "clause": clause,
         "rule": rule,
         "input": run.get("file", ""),
-        "config": " ".join(a for a in run.get("args", []) if not a.startswith("/")),
+        "config": run.get("tag") or " ".join(a for a in run.get("args", []) if not a.startswith("/")),
         "event": ev.get("e", ""),
         "l": l,
         "tid": run.get("tid"),
